@@ -43,7 +43,17 @@ ASSUMPTIONS = [
     "the Cartesian-to-spherical matrix used as T_s in the numeric laws is gbasis.spherical.generate_transformation "
     "itself (its correctness is property C10)",
 ]
-EXTRA = {}
+EXTRA = {
+    "partial_theorems": {
+        "C09_two_symm_mix_is_cart_transformed_partial": "the law 'transposition exchanges the two transforms' on the "
+            "mirrored (lower-triangle and diagonal) blocks is a hypothesis, not derived",
+        "C09_block4_index1_partial": "per block, first index only; indices 2-4 and the full tensor through the "
+            "eight-fold fill are not proved (C09_four_mix_statement is a Definition); covered by the labelled check",
+        "C09_convention_output_rows_partial": "row permutation/sign of the output is proved; invariance of spherical "
+            "outputs under a permutation of the Cartesian components is only checked numerically",
+    },
+    "model_execution": "extracted OCaml driver, commands 150-155 (Extract/RunAsm.v); element type Qc holding integers",
+}
 
 NUM_TOL = 1e-9
 
